@@ -163,7 +163,7 @@ class GaussianTrainer:
             mean = np.einsum("...nd->...d", y)
         else:
             denominator = np.maximum(
-                np.einsum("...n->...", saliency),
+                np.sum(saliency, axis=-1),
                 np.finfo(y.dtype).tiny
             )
             mean = np.einsum("...n,...nd->...d", saliency, y)
